@@ -347,6 +347,21 @@ def parseDirectiveDefinition (n : Nat) (description : Bytes) : Prog DirectiveDef
   let locs ← parseDirectiveLocations n
   pure { desc := description, name := name, args := args, locations := locs, repeatable := rep, pos := pos }
 
+/-- `if p.peek().Kind == BlockString || p.peek().Kind == String { description = p.parseDescription() }` -/
+def parseOptionalDescription : Prog Bytes := do
+  let a ← peek
+  if a.kind = .blockString then parseDescription
+  else
+    let b ← peek
+    if b.kind = .string then parseDescription else pure []
+
+/-- `if description.text != "" { p.unexpectedToken(p.prev) }` (before an extension) -/
+def rejectDescription (description : Bytes) : Prog Unit := do
+  if description ≠ [] then
+    let pv ← getPrev
+    unexpectedToken pv
+  else pure ()
+
 /-- the loop of `parseSchemaDocument` (`return nil` is `default`; the caller looks at the error first) -/
 def schemaDocLoop (m : Nat) : Nat → SchemaDoc → Prog SchemaDoc
   | 0, doc => outOfFuel doc
@@ -355,12 +370,7 @@ def schemaDocLoop (m : Nat) : Nat → SchemaDoc → Prog SchemaDoc
     if t.kind ≠ .eof then
       if ← hasErr then pure default
       else
-        let a ← peek
-        let description ← do
-          if a.kind = .blockString then parseDescription
-          else
-            let b ← peek
-            if b.kind = .string then parseDescription else pure []
+        let description ← parseOptionalDescription
         let c ← peek
         if c.kind ≠ .name then
           unexpectedError
@@ -378,9 +388,7 @@ def schemaDocLoop (m : Nat) : Nat → SchemaDoc → Prog SchemaDoc
             let dd ← parseDirectiveDefinition m description
             schemaDocLoop m n { doc with directives := doc.directives ++ [dd] }
           else if d.value = kwExtend then
-            if description ≠ [] then
-              let pv ← getPrev
-              unexpectedToken pv
+            rejectDescription description
             let doc' ← parseTypeSystemExtension m doc
             schemaDocLoop m n doc'
           else
